@@ -9,7 +9,7 @@ from iOpt.solver import Solver
 LEVEL = "exploration"
 RULE = ("programs [construct, DoGlobalIteration(1)..., Solve] of 2-4 solver instances are interleaved in one thread. ALL interleavings are executed for 2 solvers x 4 "
         "steps (70) and 3 x 2 (90) in quick, plus 2 x 6 (924), 3 x 3 (1680), 4 x 2 (2520) in thorough, over scenario tuples in which one solver's optimum is its "
-        "first trial (the shared-default mechanisms bite there), plus random long interleavings with construction-only intruders. After the schedule every solver's "
+        "first trial (the shared-default mechanisms bite there), all 70 schedules of 2 x 4 steps for sibling tuples that differ in exactly one attribute (density, r, eps, objective, box, budget, nothing, or proxies around one shared shipped problem object), plus random long interleavings with construction-only intruders. After the schedule every solver's "
         "call log, search information and result must equal its solo run, and every Solution captured when it was returned must still report what it reported then. "
         "Non-trivial: >= 2 solvers really interleaved; distinct = (tuple index, schedule).")
 ASSUMPTIONS = ["threads are deliberately not used: the code is not concurrent and the property quantifies over step interleavings",
@@ -30,6 +30,45 @@ def scenario_tuple(rng, k, first_best):
             obj = scenario.gen_objective(rng, N, ["cones", "sines", "linear", "noise", "stairs", "wells"])
         scns.append({"N": N, "lower": lo, "upper": hi, "box": kind, "obj": obj, "r": float(rng.choice([2.0, 3.0, 4.0])),
                      "eps": 1e-3 if N == 1 else max(2.0 ** -m, 0.02), "iters": 40, "m": m, "refine": False})
+    return scns
+
+
+SIBLING_ATTRS = ["m", "r", "eps", "obj", "box", "twin", "iters", "inner"]
+
+
+def sibling_tuple(rng, k, attr):
+    """k solvers that are copies of one scenario except for ONE attribute (evolvent density, r, eps, objective, box,
+    budget, nothing at all, or: separate proxies around one shared shipped problem instance).  State cached under a key that
+    forgets an attribute shows up exactly on such tuples."""
+    import copy
+    N = int(rng.integers(2, 4))
+    m = int(rng.integers(3, 11))
+    lo, hi, kind = scenario.gen_box(rng, N)
+    base = {"N": N, "lower": lo, "upper": hi, "box": kind, "obj": scenario.gen_objective(rng, N, ["cones", "sines", "wells", "linear"]),
+            "r": float(rng.choice([2.0, 3.0, 4.0])), "eps": max(2.0 ** -m, 0.02), "iters": 40, "m": m, "refine": False}
+    if attr == "inner":
+        key = [["grishagin", int(rng.integers(1, 101))], ["gkls", 2, int(rng.integers(1, 101))], ["gkls", 3, int(rng.integers(1, 101))],
+               ["rastrigin", 2], ["shekel4", int(rng.integers(1, 4))]][int(rng.integers(5))]
+        base = {"bench": key, "share_inner": True, "r": 3.0, "eps": 0.02, "iters": 40, "m": int(rng.integers(4, 11)), "refine": False, "N": None}
+    scns = [base]
+    for s in range(1, k):
+        c = copy.deepcopy(base)
+        if attr == "m":
+            c["m"] = [v for v in range(2, 13) if v != base["m"] and v * N <= 50][int(rng.integers(0, 8))]
+            c["eps"] = max(2.0 ** -c["m"], 0.02)
+        elif attr == "r":
+            c["r"] = base["r"] + float(rng.choice([0.5, 1.0, 3.0])) * s
+        elif attr == "eps":
+            c["eps"] = base["eps"] * float(rng.choice([0.5, 2.0, 3.0]))
+        elif attr == "obj":
+            c["obj"] = scenario.gen_objective(rng, N, ["cones", "sines", "wells", "linear"])
+        elif attr == "box":
+            c["lower"], c["upper"], c["box"] = scenario.gen_box(rng, N)
+        elif attr == "iters":
+            c["iters"] = base["iters"] + 7 * s
+        elif attr == "inner":
+            c["r"] = base["r"] + (0.0 if rng.random() < 0.5 else 1.0)
+        scns.append(c)
     return scns
 
 
@@ -92,6 +131,18 @@ def cases(tier, seed):
     for tup in range(6 if tier == "quick" else 12):
         for a in range(0, len(scheds), 35):
             out.append({"kind": "shared", "tuple": 500 + tup, "seed": seed, "scheds": scheds[a:a + 35], "space": len(scheds), "mode": ["default", "shared"][(tup // 3) % 2]})
+    # sibling tuples (copies differing in exactly one attribute): all 70 schedules of 2 x 4 steps per attribute, 3 x 2 for the density
+    scheds = list(all_interleavings(2, 4))
+    reps = 1 if tier == "quick" else 4
+    for rep in range(reps):
+        for ai, attr in enumerate(SIBLING_ATTRS):
+            for a in range(0, len(scheds), 35):
+                out.append({"kind": "siblings", "k": 2, "steps": 4, "attr": attr, "tuple": 700 + 20 * rep + ai, "seed": seed, "scheds": scheds[a:a + 35], "space": len(scheds)})
+    scheds3 = list(all_interleavings(3, 2))
+    for rep in range(reps):
+        for ai, attr in enumerate(["m", "inner"]):
+            for a in range(0, len(scheds3), 45):
+                out.append({"kind": "siblings", "k": 3, "steps": 2, "attr": attr, "tuple": 900 + 4 * rep + ai, "seed": seed, "scheds": scheds3[a:a + 45], "space": len(scheds3)})
     nr = 60 if tier == "quick" else 2500
     for i in range(nr):
         out.append({"kind": "random", "i": i, "seed": seed, "tuple": 1000 + i, "first_best": i % 2 == 0})
@@ -114,6 +165,18 @@ class Inst:
             elif mode == "shared":
                 self.prob, _ = record.make_problem(self.scn, cap=3000)
                 self.solver = Solver(self.prob, parameters=self.shared)   # one user object passed to several solvers
+            elif self.scn.get("bench"):
+                from vlib import bench
+                key = tuple(self.scn["bench"])
+                inners = getattr(self, "inners", None)
+                if inners is None or not self.scn.get("share_inner"):
+                    inner = bench.construct(key)
+                else:
+                    if key not in inners:
+                        inners[key] = bench.construct(key)
+                    inner = inners[key]                                  # one shipped problem object behind several solvers
+                self.prob = record.ProxyProblem(inner, cap=self.scn["iters"] + 60)
+                self.solver = Solver(self.prob, parameters=record.make_params(self.scn))
             else:
                 self.prob, _ = record.make_problem(self.scn, cap=self.scn["iters"] + 60)
                 self.solver = Solver(self.prob, parameters=record.make_params(self.scn))
@@ -171,8 +234,10 @@ def shared_params():
 def run_schedule(scns, progs, sched, viol, solo, tag):
     insts = [Inst(s) for s in scns]
     sh = shared_params()
+    inners = {}
     for ins in insts:
         ins.shared = sh
+        ins.inners = inners
     pcs = [0] * len(scns)
     order_captured = []
     def idle_state(ins):
@@ -287,6 +352,20 @@ def run_case(c):
                 "keys": ["%d|%s" % (c["tuple"], "".join(map(str, s))) for s in c["scheds"]],
                 "sample": {"solvers": k, "steps_each": steps, "space": c["space"], "first_schedule": c["scheds"][0],
                            "scenarios": [scenario.short(s) for s in scns]} if c["scheds"][0] == sorted(c["scheds"][0]) else None}
+    if c["kind"] == "siblings":
+        k, steps = c["k"], c["steps"]
+        scns = sibling_tuple(rng, k, c["attr"])
+        progs = [program(steps)] * k
+        solo = solo_refs(scns, progs)
+        for sched in c["scheds"]:
+            run_schedule(scns, progs, sched, viol, solo, "siblings-%s-%dx%d" % (c["attr"], k, steps))
+        obs["interleavings_siblings_" + c["attr"]] = len(c["scheds"])
+        obs["interleavings_siblings"] = len(c["scheds"])
+        obs["interleavings"] = len(c["scheds"])
+        return {"violations": viol, "obs": obs, "nontrivial": True,
+                "keys": ["%d|%s" % (c["tuple"], "".join(map(str, s))) for s in c["scheds"]],
+                "sample": {"kind": "sibling solvers differing only in '%s'" % c["attr"], "solvers": k, "steps_each": steps, "space": c["space"],
+                           "scenarios": [scenario.short(x) if x.get("obj") else x for x in scns]} if c["scheds"][0] == sorted(c["scheds"][0]) else None}
     if c["kind"] == "shared":
         scns = []
         for sidx in range(2):
@@ -315,7 +394,11 @@ def run_case(c):
                            "first_schedule": c["scheds"][0]} if c["scheds"][0] == sorted(c["scheds"][0]) else None}
     # random long interleavings with construction-only intruders
     k = int(rng.integers(2, 5))
-    scns = scenario_tuple(rng, k, c["first_best"])
+    if rng.random() < 0.35:
+        scns = sibling_tuple(rng, k, SIBLING_ATTRS[int(rng.integers(len(SIBLING_ATTRS)))])
+        obs["random_sibling_tuples"] = 1
+    else:
+        scns = scenario_tuple(rng, k, c["first_best"])
     progs = [["construct"] + ["iter"] * int(rng.integers(0, 12)) + (["solve"] if rng.random() < 0.8 else []) +
              (["iter", "solve"] if rng.random() < 0.2 else []) for _ in range(k)]
     # intruders: constructed, never run
@@ -325,7 +408,7 @@ def run_case(c):
         progs.append(["construct"])
     if rng.random() < 0.3:
         for sc in scns[:k]:
-            if sc["N"] <= 2:
+            if sc["N"] is not None and sc["N"] <= 2:
                 sc["params_mode"] = "shared"
     solo = solo_refs(scns, progs)
     pool = [s for s, p in enumerate(progs) for _ in p]
@@ -348,6 +431,9 @@ def finalize(obs, tier, stats):
             return "schedule space %s not exhausted: %d of %d" % (k, obs.get(k, 0), v), {}
     if not obs.get("params_default") or not obs.get("params_shared") or not obs.get("highdim_intruders"):
         return "default/shared parameter objects or high-dimensional intruders never exercised", {}
+    miss = [a for a in SIBLING_ATTRS if not obs.get("interleavings_siblings_" + a)]
+    if miss:
+        return "sibling tuples never exercised for: %s" % miss, {}
     if not obs.get("tuples_with_first_trial_optimum") or not obs.get("intruders"):
         return "D3/D4-sensitive tuples or intruders never exercised", {}
     return None, {"schedule_spaces_exhausted": {k: v for k, v in need.items()}}
